@@ -3,6 +3,7 @@ package main
 // Calls: builtins, contracts (modular), inlining of small helpers, stubs, havoc.
 
 import (
+	"go/ast"
 	"fmt"
 	"go/token"
 	"go/types"
@@ -253,10 +254,89 @@ func (ex *Exec) sortSlice(callee *ssa.Function, cc *ssa.CallCommon, p token.Pos)
 		c.assume(T(SBool, "(forall ((i Int)) (! (=> (and (<= (s.off %[1]s) i) (< i (+ (s.off %[1]s) (s.len %[1]s)))) (exists ((j Int)) (and (<= (s.off %[1]s) j) (< j (+ (s.off %[1]s) (s.len %[1]s))) (= (select %[2]s i) (select %[3]s j))))) :pattern ((select %[2]s i))))", s.S, na.S, oldArr.S))
 		c.assume(T(SBool, "(forall ((j Int)) (! (=> (and (<= (s.off %[1]s) j) (< j (+ (s.off %[1]s) (s.len %[1]s)))) (exists ((i Int)) (and (<= (s.off %[1]s) i) (< i (+ (s.off %[1]s) (s.len %[1]s))) (= (select %[2]s i) (select %[3]s j))))) :pattern ((select %[3]s j))))", s.S, na.S, oldArr.S))
 	}
+	pre := ex.st.clone()
 	c.heapSet(ex.st, k, Store(h, sliceArr(s), na))
+	if c.Mode == ArithInt {
+		// the same permutation facts through the element accessor used by contract expressions (so that facts
+		// stated about the elements before the call are found by E-matching for the elements after it, and back)
+		hPost := c.heapGet(ex.st, k)
+		bi, bj := Term{"i!pa", c.idxSort()}, Term{"j!pa", c.idxSort()}
+		postI, preJ := c.elemAt(k, hPost, s, bi), c.elemAt(k, h, s, bj)
+		c.assume(T(SBool, "(forall ((i!pa Int)) (! (=> (and (<= 0 i!pa) (< i!pa (s.len %[1]s))) (exists ((j!pa Int)) (and (<= 0 j!pa) (< j!pa (s.len %[1]s)) (= %[2]s %[3]s)))) :pattern (%[2]s)))", s.S, postI.S, preJ.S))
+		c.assume(T(SBool, "(forall ((j!pa Int)) (! (=> (and (<= 0 j!pa) (< j!pa (s.len %[1]s))) (exists ((i!pa Int)) (and (<= 0 i!pa) (< i!pa (s.len %[1]s)) (= %[2]s %[3]s)))) :pattern (%[3]s)))", s.S, postI.S, preJ.S))
+	}
 	c.trust("sort functions permute the elements of their slice argument and change nothing else; comparators are side-effect free")
-	_ = p
+	if less := ex.sortComparator(name, cc); less != nil && c.Mode == ArithInt {
+		// The comparator closure carries a contract with a clause "ensures [less] result == E(i, j)". The sort's
+		// guarantee (the result is ordered: no later element is less than an earlier one) holds when E is a strict
+		// weak order on the elements, which is proved here, on the state before the call.
+		n := T(c.idxSort(), "(s.len %s)", s.S)
+		in := func(v string) string { return fmt.Sprintf("(and (<= 0 %s) (< %s %s))", v, v, n.S) }
+		L := func(st *State, a, b string) string { return less(st, Term{a, c.idxSort()}, Term{b, c.idxSort()}).S }
+		site := ex.callSiteID("sort:" + name)
+		pos := ex.pos(p)
+		c.obligeNamed("sort.less-irreflexive@"+site, "sort", pos, "the comparator handed to "+name+" is irreflexive on the elements", ex.rch,
+			T(SBool, "(forall ((a!s Int)) (=> %s (not %s)))", in("a!s"), L(pre, "a!s", "a!s")))
+		c.obligeNamed("sort.less-transitive@"+site, "sort", pos, "the comparator handed to "+name+" is transitive on the elements", ex.rch,
+			T(SBool, "(forall ((a!s Int) (b!s Int) (d!s Int)) (=> (and %s %s %s %s %s) %s))", in("a!s"), in("b!s"), in("d!s"), L(pre, "a!s", "b!s"), L(pre, "b!s", "d!s"), L(pre, "a!s", "d!s")))
+		c.obligeNamed("sort.less-incomparability-transitive@"+site, "sort", pos, "incomparability under the comparator handed to "+name+" is transitive (strict weak order)", ex.rch,
+			T(SBool, "(forall ((a!s Int) (b!s Int) (d!s Int)) (=> (and %s %s %s (not %s) (not %s) (not %s) (not %s)) (and (not %s) (not %s))))", in("a!s"), in("b!s"), in("d!s"),
+				L(pre, "a!s", "b!s"), L(pre, "b!s", "a!s"), L(pre, "b!s", "d!s"), L(pre, "d!s", "b!s"), L(pre, "a!s", "d!s"), L(pre, "d!s", "a!s")))
+		c.assume(Implies(ex.rch, T(SBool, "(forall ((a!s Int) (b!s Int)) (=> (and (<= 0 a!s) (< a!s b!s) (< b!s %s)) (not %s)))", n.S, L(ex.st, "b!s", "a!s"))))
+		c.trust("sort.Slice orders its argument with respect to a comparator that is a strict weak order (proved at the call)")
+	}
 	return nil, true
+}
+
+// sortComparator returns the comparator of a sort.Slice-style call as a term builder, when the closure handed to the
+// call has a contract with a clause  ensures [less] result == E  (E over the closure's parameters and captured variables).
+func (ex *Exec) sortComparator(name string, cc *ssa.CallCommon) func(st *State, i, j Term) Term {
+	if name != "sort.Slice" && name != "sort.SliceStable" {
+		return nil
+	}
+	if len(cc.Args) < 2 {
+		return nil
+	}
+	fv := ex.val(cc.Args[1])
+	if fv.Fn == nil {
+		return nil
+	}
+	ct, key := ex.w.contractFor(fv.Fn)
+	if ct == nil {
+		return nil
+	}
+	var rhs ast.Expr
+	for _, en := range ct.Ensures {
+		if en.Name != "less" {
+			continue
+		}
+		if be, ok := en.Expr.(*ast.BinaryExpr); ok && be.Op == token.EQL {
+			if id, ok := be.X.(*ast.Ident); ok && id.Name == "result" {
+				rhs = be.Y
+			}
+		}
+	}
+	if rhs == nil {
+		return nil
+	}
+	names := paramNames(fv.Fn)
+	if len(names) != 2 {
+		return nil
+	}
+	intT := types.Typ[types.Int]
+	return func(st *State, i, j Term) Term {
+		env := &Env{ex: ex, st: st, old: st, vars: map[string]Val{}, pkg: fv.Fn.Pkg.Pkg, ct: ct, defs: map[string]string{}, defSt: st.clone(), where: key}
+		env.vars[names[0]] = Val{T: i, Ty: intT}
+		env.vars[names[1]] = Val{T: j, Ty: intT}
+		for k, f := range fv.Fn.FreeVars {
+			if k >= len(fv.Bind) {
+				break
+			}
+			t := f.Type().(*types.Pointer).Elem()
+			env.vars[f.Name()] = Val{T: ex.loadLoc(st, ex.locOfRef(fv.Bind[k].T, t)), Ty: t}
+		}
+		return env.eval(rhs).T
+	}
 }
 
 func (ex *Exec) argVals(cc *ssa.CallCommon) []Val {
